@@ -80,6 +80,9 @@ func (sh *BatShell) RunScript(script Str) (out Str, status gosym.Value) {
 
 func (sh *BatShell) tick() {
 	sh.steps++
+	if sh.steps&255 == 0 && sh.C.WallExceeded() {
+		batUnsup("step budget exceeded (wall-clock limit of the path; non-terminating script?)")
+	}
 	if sh.steps > sh.MaxSteps {
 		batUnsup("step budget exceeded (non-terminating script?)")
 	}
